@@ -202,8 +202,21 @@ pub struct Budget {
 }
 
 impl Budget {
+    /// wall-clock cap or resident-set cap (LSVERIF_RSS_GB, default 40) reached: the current level
+    /// is abandoned and reported as capped (never as explored)
     pub fn exceeded(&self) -> bool {
-        self.start.elapsed().as_secs_f64() > self.wall_secs
+        if self.start.elapsed().as_secs_f64() > self.wall_secs {
+            return true;
+        }
+        static CAP_PAGES: std::sync::OnceLock<u64> = std::sync::OnceLock::new();
+        let cap = *CAP_PAGES.get_or_init(|| {
+            let gb: f64 = std::env::var("LSVERIF_RSS_GB").ok().and_then(|s| s.parse().ok()).unwrap_or(40.0);
+            (gb * (1u64 << 30) as f64 / 4096.0) as u64
+        });
+        match std::fs::read_to_string("/proc/self/statm") {
+            Ok(s) => s.split_whitespace().nth(1).and_then(|x| x.parse::<u64>().ok()).is_some_and(|rss| rss > cap),
+            Err(_) => false,
+        }
     }
 }
 
